@@ -17,8 +17,10 @@ Definition field_okb (f : field) : bool :=
   && (match dst_of (f_names f) with Some _ => negb (is_modifier (f_desc f)) | None => true end)
   && docb (f_doc f).
 
+(* a parameter has no first-namespace name: the format has no place for it (the reader builds
+   [None; Some dst]); in the project's use the first namespace of parameters is always empty *)
 Definition param_okb (p : param) : bool :=
-  (match p_names p with [_; Some d] => tokb d && is_valid_unqualified_name d | _ => false end)
+  (match p_names p with [None; Some d] => tokb d && is_valid_unqualified_name d | _ => false end)
   && N.ltb (p_index p) usize_bound && docb (p_doc p).
 
 Definition meth_okb (m : meth) : bool :=
@@ -156,11 +158,11 @@ Proof.
   apply andb_true_iff in H. exact H.
 Qed.
 
-Lemma param_dst p : param_okb p = true -> exists d, dst_of (p_names p) = Some d /\ p_names p = [nth 0 (p_names p) None; Some d]
+Lemma param_dst p : param_okb p = true -> exists d, dst_of (p_names p) = Some d /\ p_names p = [None; Some d]
   /\ tokb d = true /\ is_valid_unqualified_name d = true.
 Proof.
   unfold param_okb. intros H. split_ands H.
-  destruct (p_names p) as [|a [|[b|] [|? ?]]]; try discriminate. exists b. cbn [dst_of nth].
+  destruct (p_names p) as [|[a|] [|[b|] [|? ?]]]; try discriminate. exists b. cbn [dst_of nth].
   apply andb_true_iff in H. repeat split; try reflexivity; apply H.
 Qed.
 
